@@ -12,9 +12,9 @@ import Harper.Model.Chunks
   characters of the event's text); everything Harper does with them is modelled: the
   `traversed_bytes / traversed_chars` pair (`mdAdvance`, `Model/Mask.lean`), the tag stack, which
   event produces which token and WHERE (`Span::new_with_len(traversed_chars, …)`), the inner
-  `PlainEnglish` parse of `source[traversed_chars .. traversed_chars + chunk_len]` shifted by
-  `traversed_chars`, the trailing-break pop, `remove_hidden_wikilink_tokens`,
-  `remove_wikilink_brackets` (both on top of `Harper.removeIndices`, the model of
+  `PlainEnglish` parse of `source[traversed_chars .. traversed_chars + chunk_len]` (clamped to the
+  source) shifted by `traversed_chars`, the trailing-break pop, `remove_hidden_wikilink_tokens`,
+  `remove_wikilink_brackets`, the final clamp-and-drop pass (both on top of `Harper.removeIndices`, the model of
   `Vec::remove_indices`).
 * `harper-core/src/parsers/collapse_identifiers.rs`: `CollapseIdentifiers::parse` after the inner
   parser, with dictionary membership as a function given as data.
@@ -126,8 +126,12 @@ def mdStep (bs : List Nat) (src : List Char) (inner : List Char → Except Panic
     | .unlintable => pure (c', [⟨spanWithLen tc n, .unlintable⟩])
     | .skip => pure (c', [])
     | .parse => do
-      -- `&source[traversed_chars..traversed_chars + chunk_len]`
-      let chunk ← sliceE src tc (tc + n)
+      -- `chunk_end = (traversed_chars + chunk_len).min(source.len())`,
+      -- `chunk_start = traversed_chars.min(chunk_end)`, `&source[chunk_start..chunk_end]`;
+      -- the tokens are still pushed by `traversed_chars`
+      let chunkEnd := min (tc + n) src.length
+      let chunkStart := min tc chunkEnd
+      let chunk ← sliceE src chunkStart chunkEnd
       let toks ← inner chunk
       pure (c', toks.map (·.shift tc))
   | .other => pure (c', [])
@@ -195,6 +199,20 @@ def EventsOK (bs : List Nat) (ilt : Bool) (events : List MdEvent) : Prop :=
   eventsOK bs ilt 0 0 [] events = true
 
 instance (bs : List Nat) (ilt : Bool) (events : List MdEvent) : Decidable (EventsOK bs ilt events) :=
+  inferInstanceAs (Decidable (_ = true))
+
+/-- the only thing `Markdown::parse` still needs of the events in order not to panic: whenever an
+event's start is ahead of the cursor, `source_str[traversed_bytes..range.start]` must be a valid
+`str` slice (a char boundary inside the text). Implied by `EventsOK`. -/
+def startsOK (bs : List Nat) : Nat → List MdEvent → Bool
+  | _, [] => true
+  | cur, e :: es =>
+    (decide (e.rs ≤ cur) || (decide (e.rs ≤ bs.length) && isBoundary bs e.rs)) &&
+      startsOK bs (max cur e.rs) es
+
+def StartsOK (bs : List Nat) (events : List MdEvent) : Prop := startsOK bs 0 events = true
+
+instance (bs : List Nat) (events : List MdEvent) : Decidable (StartsOK bs events) :=
   inferInstanceAs (Decidable (_ = true))
 
 /-- this event does not push an EMPTY `Unlintable` -/
@@ -294,6 +312,28 @@ def removeWikilinkBrackets (toks : List Tok) : List Tok :=
 def wikilinkCleanup (toks : List Tok) : List Tok :=
   removeWikilinkBrackets (removeHiddenWikilinkTokens toks)
 
+/-! ## the final `retain_mut` pass: no token reaches past the end of the source -/
+
+/-- the closure of `tokens.retain_mut(..)`: `was_empty = span.is_empty()` (`len() == 0`, i.e.
+`end - start`, which underflows when `start > end`), `end = end.min(len)`,
+`start = start.min(end)`, keep iff `was_empty || !span.is_empty()` -/
+def clampTok (n : Nat) (t : Tok) : Except Panic (Option Tok) :=
+  if t.span.start > t.span.stop then .error .underflow
+  else
+    let wasEmpty := t.span.start == t.span.stop
+    let e := min t.span.stop n
+    let s := min t.span.start e
+    .ok (if wasEmpty || s != e then some ⟨⟨s, e⟩, t.kind⟩ else none)
+
+def clampAll (n : Nat) : List Tok → Except Panic (List Tok)
+  | [] => .ok []
+  | t :: ts => do
+    let r ← clampTok n t
+    let rest ← clampAll n ts
+    pure (match r with
+      | some t' => t' :: rest
+      | none => rest)
+
 /-! ## `Markdown::parse` -/
 
 /-- `Markdown::parse` given the bytes of the `String`, the characters, the inner parser, the
@@ -301,7 +341,7 @@ option and pulldown's events -/
 def mdParse (bs : List Nat) (src : List Char) (inner : List Char → Except Panic (List Tok))
     (ilt : Bool) (events : List MdEvent) : Except Panic (List Tok) := do
   let toks ← mdLoop bs src inner ilt ⟨0, 0⟩ [] events
-  pure (wikilinkCleanup (popTrailingBreak src toks))
+  clampAll src.length (wikilinkCleanup (popTrailingBreak src toks))
 
 /-- … with the bytes computed from the characters and `PlainEnglish` as the inner parser: what the
 driver runs -/
